@@ -42,6 +42,10 @@ FILTERS = [
     ("new_zero_sel", {"filter_stats": {"filtered_complete": {"weighted": {"selected": 0, "other": 2}}}}, 0.0),
     ("new_cat_date", {"filter_stats": {"is_cat_date": True,
                                        "filtered_complete": {"weighted": {"selected": 1.0, "other": 3.0}}}}, 1.0),
+    ("cat_date_flag_without_stats_then_old", {"filter_stats": {"is_cat_date": True, "filtered_complete": {}},
+                                              "filtered": {"weighted_n": 1.0}, "unfiltered": {"weighted_n": 4.0}}, 0.25),
+    ("cat_date_flag_null_stats_zero_den", {"filter_stats": {"is_cat_date": True, "filtered_complete": {"weighted": None}},
+                                           "filtered": {"weighted_n": 1.0}, "unfiltered": {"weighted_n": 0}}, NANF),
     ("new_empty_then_old", {"filter_stats": {"filtered_complete": {}},
                             "filtered": {"weighted_n": 1.0}, "unfiltered": {"weighted_n": 4.0}}, 0.25),
 ]
